@@ -200,6 +200,18 @@ func makeCachable(w http.ResponseWriter, p string, fi os.FileInfo, cachable bool
 	w.Header().Set("Cache-Control", cc)
 }
 
+// containsDotDot returns true if a path contains a ".." component.
+// The multiplexer redirects such paths, except when they are
+// percent-encoded or the method is CONNECT.
+func containsDotDot(p string) bool {
+	for _, c := range strings.Split(p, "/") {
+		if c == ".." {
+			return true
+		}
+	}
+	return false
+}
+
 // fileHandler is our custom reimplementation of http.FileServer
 type fileHandler struct {
 	root *os.Root
@@ -221,6 +233,11 @@ func (fh *fileHandler) ServeHTTP(w http.ResponseWriter, r *http.Request) {
 		p = "."
 	} else {
 		p = r.URL.Path[1:]
+	}
+
+	if containsDotDot(p) {
+		http.Error(w, "invalid URL path", http.StatusBadRequest)
+		return
 	}
 
 	f, err := fh.root.Open(p)
@@ -605,6 +622,11 @@ func recordingsHandler(w http.ResponseWriter, r *http.Request) {
 		strings.ContainsRune(p, filepath.Separator) {
 		http.Error(w, "Bad character in filename",
 			http.StatusBadRequest)
+		return
+	}
+
+	if containsDotDot(p) {
+		http.Error(w, "Bad group name", http.StatusBadRequest)
 		return
 	}
 
